@@ -13,6 +13,7 @@ from ..drivers import conn as cd
 from . import _conn as K
 
 CLAUSES = ('owned-uncommitted', 'state-lost', 'stale', 'dirty-idle', 'serial', 'leftover', 'closed-joined')
+DEVS = ('InvalidateDoomed', 'LeakUnstored')        # the deviations whose clauses are this property's
 FOCUS = ('Finish', 'FinishThenFail', 'FailBeforeBegin', 'FailBegun', 'StoreRaises', 'StoreConflict', 'FailStored', 'FailVoted',
          'CommitSpConflict')
 NEED = ['Modify', 'Link', 'Unlink', 'AddExplicit', 'Load', 'Begin', 'Store', 'Stored', 'Vote', 'Finish', 'Abort', 'Close',
@@ -20,7 +21,7 @@ NEED = ['Modify', 'Link', 'Unlink', 'AddExplicit', 'Load', 'Begin', 'Store', 'St
         'FinishThenFail', 'Savepoint', 'CommitSp']
 
 
-BUDGET = {'committed-objects': 100000, 'new-objects': 80000, 'with-savepoint': 80000}
+BUDGET = {'committed-objects': 40000, 'new-objects': 38000, 'with-savepoint': 38000, 'one-object': 34000}
 
 
 def configs(q):
@@ -37,7 +38,7 @@ def configs(q):
 
 def run(ctx):
     q = ctx.quick
-    cov = K.Cover(ctx.pid, CLAUSES, FOCUS)
+    cov = K.Cover(ctx.pid, CLAUSES, FOCUS, DEVS)
     items = configs(q)
     kinds = ('mapping', 'file') if q else ('mapping', 'file', 'demo')
     # 2. the deviations of the code, exhibited by TLC and tried on the code
@@ -63,4 +64,4 @@ RULE = ('tours through the state graphs TLC dumped for ZConn (model of the code 
 
 
 def replay(ctx, data):
-    return K.replay(ctx, data, CLAUSES, FOCUS)
+    return K.replay(ctx, data, CLAUSES, FOCUS, DEVS)
